@@ -348,6 +348,60 @@ Definition check_pool (c : pool_case) : result :=
              + bN (q_retries c) 16 + bN (q_has_ctx (q_reqs c)) 32)%N
    end, 0%N).
 
+(** *** several wrappers / pools created from ONE policy object
+
+    [CreateWrapper] is called once per server pool (InjectResiliencePolicy: main and
+    candidate pools, several Proxy filters), each call yields a breaker of its own: the
+    model is one independent [cb] per instance.  A case carries, per call, the index of the
+    instance it went to; instance [k] is judged - by the single-instance check functions
+    above - on ITS OWN calls and observations only, so traffic on another instance can
+    explain nothing. *)
+Fixpoint pick {A} (k : Z) (idx : list Z) (l : list A) : list A :=
+  match idx, l with
+  | i :: it, x :: t => if i =? k then x :: pick k it t else pick k it t
+  | _, _ => []
+  end.
+
+Definition all_results (rs : list result) (cls : N) : result :=
+  (forallb (fun '(c, _, _, _) => c) rs, forallb (fun '(_, p, _, _) => p) rs, cls, 0%N).
+
+Definition instances : list Z := [0; 1; 2].
+Definition idx_ok (idx : list Z) : bool := forallb (fun i => (0 <=? i) && (i <=? 2)) idx.
+Definition multi (idx : list Z) : bool := existsb (fun i => negb (i =? 0)) idx.
+Definition cls_of (r : result) : N := let '(_, _, c, _) := r in c.
+
+Record wrapm_case := { mw : wrap_case; mw_idx : list Z }.
+
+Definition wrapm_part (c : wrapm_case) (k : Z) : wrap_case :=
+  {| w_pol := w_pol (mw c); w_t0 := w_t0 (mw c);
+     w_calls := pick k (mw_idx c) (w_calls (mw c)); w_obs := pick k (mw_idx c) (w_obs (mw c)) |}.
+
+Definition check_wrapm (c : wrapm_case) : result :=
+  let sane := idx_ok (mw_idx c) && Nat.eqb (List.length (mw_idx c)) (List.length (w_calls (mw c)))
+              && Nat.eqb (List.length (mw_idx c)) (List.length (w_obs (mw c))) in
+  let parts := map (fun k => check_wrap (wrapm_part c k)) instances in
+  let '(co, pr, cl, at') := all_results parts
+       (match w_calls (mw c) with [] => 0 | _ => N.max 1 (cls_of (check_wrap (wrapm_part c 0))) + bN (multi (mw_idx c)) 16 end)%N in
+  (sane && co, sane && pr, cl, at').
+
+Definition explain_wrapm (c : wrapm_case) := map (fun k => explain_wrap (wrapm_part c k)) instances.
+
+Record poolm_case := { mq : pool_case; mq_idx : list Z }.
+
+Definition poolm_part (c : poolm_case) (k : Z) : pool_case :=
+  {| q_pol := q_pol (mq c); q_t0 := q_t0 (mq c); q_retry := q_retry (mq c);
+     q_reqs := pick k (mq_idx c) (q_reqs (mq c)); q_obs := pick k (mq_idx c) (q_obs (mq c)) |}.
+
+Definition check_poolm (c : poolm_case) : result :=
+  let sane := idx_ok (mq_idx c) && Nat.eqb (List.length (mq_idx c)) (List.length (q_reqs (mq c)))
+              && Nat.eqb (List.length (mq_idx c)) (List.length (q_obs (mq c))) in
+  let parts := map (fun k => check_pool (poolm_part c k)) instances in
+  let '(co, pr, cl, at') := all_results parts
+       (match q_reqs (mq c) with [] => 0 | _ => N.max 1 (cls_of (check_pool (poolm_part c 0))) + bN (multi (mq_idx c)) 64 end)%N in
+  (sane && co, sane && pr, cl, at').
+
+Definition explain_poolm (c : poolm_case) := map (fun k => explain_pool (poolm_part c k)) instances.
+
 (** *** groups "lin" (thorough tier: free-running goroutines) and "race" (quick tier:
     deterministic forced overlap): concurrent callers
 
